@@ -18,7 +18,23 @@ recognising one spelling of them:
                        the inserts performed on the feasible paths of one entry's application are exactly the rule —
                        override: NAME := VALUE; default: NAME := VALUE only when unset; append: PREV [+ DELIM] + VALUE;
                        prepend: VALUE [+ DELIM + PREV] (delimiter only when PREV is non-empty, DELIM = the delta's
-                       (Delimiter, same name) entry or nothing); delimiter: no insert — on every path (always/<arm>)
+                       (Delimiter, same name) entry or nothing); delimiter: no insert — on every path (always/<arm>);
+                       no path of one entry's application leaves the entry loop (`break`): the entries that sort later
+                       would not be applied
+  R6 running env       every Env that is read or written while a delta is applied (in the core function, its closures
+                       and the private helpers it hands an environment to) is the one environment being built: it
+                       starts as the (clone of the) input env, and is what is returned.  Decided on where a reference
+                       comes from (MIR local / parameter / captured variable), because the value slicer sees through
+                       clone(): `env.get(name)` and `result_env.get(name)` are equal values but different objects once
+                       an earlier entry of the same delta has been applied
+  R7 env model         the model R5 evaluates the rules over is what libcnb/src/env.rs implements: Env::get is the
+                       plain lookup (None iff unset), Env::contains_key is presence (an empty string is set),
+                       Env::insert stores the value under the key on every path, Clone is a faithful copy
+  R8 insert routing    LayerEnv::insert, evaluated per Scope variant like R1, hands (behaviour, name, value) unchanged
+                       to the delta that LayerEnv::apply folds for that scope (All->all, Build->build, Launch->launch,
+                       Process(p)->process[p], created empty when missing and kept when present); LayerEnvDelta::insert
+                       is entries[(behaviour, name)] = value; chainable_insert = insert, then self; apply_to_empty =
+                       apply to an environment without variables
 Spelling independence (C04_helpers): the per-delta application is a family of ownership variants (apply(&env) =
 apply_owned(env.clone()), delta_family); the entry loop may range over an order-preserving filter / map view of the
 entries nested in a loop over a literal behaviour table that is sorted like the map and never left early (EntryView);
@@ -117,6 +133,74 @@ def run(ctx, rep):
     rep.check(writers == [L.INSERT], 'R4', 'single-writer', '%s:%d' % (d['file'], d['line']),
               'LayerEnvDelta::insert is the only writer of entries', 'entries are mutated by %s' % writers)
     arm_rules(ctx, rep)
+    running_env_rule(ctx, rep)
+    env_model_rule(ctx, rep)
+    routing_rule(ctx, rep)
+
+
+def routing_rule(ctx, rep):
+    """R8: "entries of scope X" are what LayerEnv::insert was given for X.  For every Scope variant (LayerEnv::insert
+    evaluated with the scope fixed, like R1) the (behaviour, name, value) handed in is stored, unchanged and on every
+    path, in the delta R1 shows LayerEnv::apply to fold for that scope — for a process: in the delta kept under the
+    process name, which is created empty when missing and kept when present.  LayerEnvDelta::insert stores
+    entries[(behaviour, name)] = value; chainable_insert is insert-then-self; apply_to_empty is apply to an
+    environment without variables."""
+    rep.rule('R8', 'LayerEnv::insert stores an entry in the delta LayerEnv::apply reads for its scope; chainable_insert / apply_to_empty delegate')
+    subjects = ['insert/All', 'insert/Build', 'insert/Launch', 'insert/Process', 'delta-insert', 'chainable-insert', 'apply-to-empty']
+    try:
+        rows = H.insert_routing(ctx.prog, ctx.slicer)
+    except Exception as e:      # fail closed
+        rows = [(s, 'unproven', 'libcnb/src/layer_env.rs', 'analysis failed: %s: %s' % (type(e).__name__, str(e)[:100])) for s in subjects]
+    for subject, status, where, msg in rows:
+        getattr(rep, status)('R8', subject, where, msg)
+    got = {r[0] for r in rows}
+    for s in subjects:
+        if s not in got:
+            rep.unproven('R8', s, 'libcnb/src/layer_env.rs', 'not analysed (the Scope variant / function was not found)')
+    for p in (H.LE_INSERT, H.LE_CHAIN, H.LE_EMPTY, L.INSERT):
+        if p in ctx.prog.fns:
+            rep.analysed(ctx.prog.fns[p])
+
+
+def env_model_rule(ctx, rep):
+    """R7: R5 evaluates the per-entry rules over a model of the environment — get(NAME) is None exactly when the
+    variable is unset, contains_key(NAME) is "set" (also to the empty string), insert(k, v) stores v under k whatever
+    was there and whatever v is, and the application starts from a faithful copy.  Those are obligations on the
+    bodies in libcnb/src/env.rs, decided on the normal forms of what they return / the one write they perform."""
+    rep.rule('R7', 'Env::insert / get / contains_key / Clone are the plain map operations the per-entry rules are stated over')
+    try:
+        rows = H.env_primitives(ctx.prog, ctx.slicer)
+    except Exception as e:      # fail closed
+        rows = [(s, 'unproven', 'libcnb/src/env.rs', 'analysis failed: %s: %s' % (type(e).__name__, str(e)[:100]))
+                for s in ('env-insert', 'env-get', 'env-contains-key', 'env-clone')]
+    for subject, status, where, msg in rows:
+        getattr(rep, status)('R7', subject, where, msg)
+    for p in (H.ENV_INSERT, H.ENV_GET, H.ENV_CONTAINS):
+        if p in ctx.prog.fns:
+            rep.analysed(ctx.prog.fns[p])
+
+
+def running_env_rule(ctx, rep):
+    """R6: the rules of R5 are stated about "the environment built so far".  The value slicer cannot tell that
+    environment from the input env it was cloned from, so which *object* every read and write inside the per-delta
+    application is applied to is decided here, from where the reference comes from: one accumulator that starts as
+    the (clone of the) input env, is handed to every Env method / helper / closure, and is what is returned."""
+    prog = ctx.prog
+    rep.rule('R6', 'the per-entry rules read and write the one environment being built (not the input env), which is what is returned')
+    try:
+        g, problems, acc = H.running_env(prog)
+    except Exception as e:      # fail closed
+        g = prog.fn(L.DAPPLY)
+        problems, acc = [('unproven', '%s:%d' % (g.file, g.line), 'analysis failed: %s: %s' % (type(e).__name__, str(e)[:100]))], '?'
+    gw = '%s:%d' % (g.file, g.line)
+    bad = [p for p in problems if p[0] == 'violated']
+    und = [p for p in problems if p[0] != 'violated']
+    if bad:
+        rep.violated('R6', 'running-env', bad[0][1], '; '.join(p[2] for p in bad[:3]))
+    elif und:
+        rep.unproven('R6', 'running-env', und[0][1], '; '.join(p[2] for p in und[:3]))
+    else:
+        rep.holds('R6', 'running-env', gw, 'every environment read / written while a delta is applied is the %s, which is returned' % acc)
 
 
 class _ArmFilter:
